@@ -32,39 +32,41 @@ def push (chunkSize : Nat) (cl : CL) (item : Int) : CL :=
 
 def countItems (cl : CL) (ids : List Nat) : Nat := (ids.map fun i => (cl.cell i).length).sum
 
-/-- `ChunkList.Snapshot(tail)`: new list state and the ids handed out. -/
-def snapshot (tail : Nat) (cl : CL) : CL × List Nat :=
-  -- --tail trimming: keep the trailing chunks holding `tail` items, the first of them cut to size
-  let cl :=
-    if tail > 0 ∧ countItems cl cl.ids > tail then
-      let rec keep (rev : List Nat) (left : Int) (acc : List Nat) : List Nat × Int :=
-        match rev with
-        | [] => (acc, left)
-        | id :: rest => if left > 0 then keep rest (left - (cl.cell id).length) (id :: acc) else (acc, left)
-      let (kept, left) := keep cl.ids.reverse tail []
-      -- `left ≤ 0` now; the first kept chunk holds `-left` items too many
-      match kept with
-      | [] => cl
-      | first :: rest =>
-        if left < 0 then
-          let c := cl.cell first
-          let (cl', id) := alloc cl (c.drop (-left).toNat)
-          { cl' with ids := id :: rest }
-        else { cl with ids := kept }
-    else cl
-  -- hand out copies of the first (under --tail) and of the last chunk
+/-- The trailing chunks that hold `left` items (first loop of `Snapshot`), and what is left over. -/
+def keep (cl : CL) : List Nat → Int → List Nat → List Nat × Int
+  | [], left, acc => (acc, left)
+  | id :: rest, left, acc =>
+    if left > 0 then keep cl rest (left - (cl.cell id).length) (id :: acc) else (acc, left)
+
+/-- --tail trimming inside `Snapshot`: keep the trailing chunks holding `tail` items, the first of
+    them replaced by a cut-down copy. -/
+def trim (tail : Nat) (cl : CL) : CL :=
+  if tail > 0 ∧ countItems cl cl.ids > tail then
+    match keep cl cl.ids.reverse tail [] with
+    | ([], _) => cl
+    | (first :: rest, left) =>
+      if left < 0 then
+        let (cl', id) := alloc cl ((cl.cell first).drop (-left).toNat)
+        { cl' with ids := id :: rest }
+      else { cl with ids := first :: rest }
+  else cl
+
+/-- Handing out the snapshot: full chunks are shared, the last chunk (and under --tail the first)
+    is copied. -/
+def handOut (tail : Nat) (cl : CL) : CL × List Nat :=
   match cl.ids.reverse with
   | [] => (cl, [])
   | lastId :: restRev =>
-    let (cl1, lastCopy) := alloc cl (cl.cell lastId)
-    let front := restRev.reverse
-    match front with
-    | [] => (cl1, [lastCopy])
+    let n := cl.cells.length
+    match restRev.reverse with
+    | [] => ({ cl with cells := cl.cells ++ [cl.cell lastId] }, [n])
     | firstId :: mid =>
       if tail > 0 then
-        let (cl2, firstCopy) := alloc cl1 (cl1.cell firstId)
-        (cl2, firstCopy :: mid ++ [lastCopy])
-      else (cl1, front ++ [lastCopy])
+        ({ cl with cells := cl.cells ++ [cl.cell lastId, cl.cell firstId] }, (n + 1) :: mid ++ [n])
+      else ({ cl with cells := cl.cells ++ [cl.cell lastId] }, (firstId :: mid) ++ [n])
+
+/-- `ChunkList.Snapshot(tail)`: new list state and the ids handed out. -/
+def snapshot (tail : Nat) (cl : CL) : CL × List Nat := handOut tail (trim tail cl)
 
 inductive Op where
   | push (item : Int)
